@@ -83,10 +83,11 @@ const (
 	fSetWriter
 	fFreshContext
 	fReplaceReqFiltered
+	fErrorStatusThenPass
 	nBehaviours
 )
 
-var behName = []string{"pass", "attr", "replace-request", "replace-response", "replace-http-request", "middleware-adapter", "set-response-writer", "http-request-on-fresh-context", "replace-request-dropping-and-overriding-attributes"}
+var behName = []string{"pass", "attr", "replace-request", "replace-response", "replace-http-request", "middleware-adapter", "set-response-writer", "http-request-on-fresh-context", "replace-request-dropping-and-overriding-attributes", "writes-an-error-status-and-passes-control-on"}
 
 func mkFilter(name string, beh int) restful.FilterFunction {
 	if beh == fMiddleware {
@@ -149,6 +150,10 @@ func mkFilter(name string, beh int) restful.FilterFunction {
 			req.Request = req.Request.WithContext(context.WithValue(req.Request.Context(), name, 1))
 		case fSetWriter:
 			resp.ResponseWriter = &wrapW{resp.ResponseWriter}
+		case fErrorStatusThenPass:
+			// a maintenance / sunset filter: announces 503 through the Response and deliberately lets the chain go on
+			resp.AddHeader("X-Maintenance", name)
+			resp.WriteHeader(http.StatusServiceUnavailable)
 		case fFreshContext:
 			// the http.Request is re-based on a context of the filter's own making (only the harness's log travels along);
 			// attributes live in the restful.Request and are untouched by that
@@ -604,7 +609,7 @@ func asyncChain(ctx *core.Ctx, ci int, router string, adapter bool) {
 
 func c06(ctx *core.Ctx) {
 	quietLogs()
-	ctx.Rule("generated configurations: 0-5 container filters (now and then 9, 17, 33 or 65 at a level), two WebServices with 0-3 service filters, two routes and a pair of representation twins (same method and path, JSON vs XML) with 0-3 route filters each, now and then two routes built from one reused RouteBuilder (the second inherits the first one's filters), every filter named after its owner, behaviour per filter in {pass, set attribute, replace Request (all attributes copied, or some dropped and one overridden), replace Response, replace http.Request (derived or on a fresh context), HttpMiddlewareHandlerToFilter around a wrapping middleware, set ResponseWriter}; any filter short-circuits on demand of the request; service / container filters registered before or after the routes / services; handlers that panic (recovery on: nothing in the chain may run a second time). 40-request sequences (routed, 404 and 405 routing failures with POST/HEAD/PUT/DELETE/PATCH, HandleWithFilter) run sequentially on one container and then from 16 (every 5th configuration: 70) goroutines (race detector on). Every fifth configuration also runs a fixed chain with a filter in the style of http.TimeoutHandler (hands the chain below, with a response of its own, to another goroutine, answers 504 and returns early): every element still runs once, in order. Offline checker per request: exact enter/pass/exit sequence = prefix of [container.., service.., route.., handler] with reversed exits, each once, hand-over identity of (Request, Response, http.Request, writer, attributes). Non-trivial = a request whose chain has >= 2 elements; distinct by (filter counts per level, short-circuit position, request kind, behaviours on the path).")
+	ctx.Rule("generated configurations: 0-5 container filters (now and then 9, 17, 33 or 65 at a level), two WebServices with 0-3 service filters, two routes and a pair of representation twins (same method and path, JSON vs XML) with 0-3 route filters each, now and then two routes built from one reused RouteBuilder (the second inherits the first one's filters), every filter named after its owner, behaviour per filter in {pass, set attribute, replace Request (all attributes copied, or some dropped and one overridden), replace Response, replace http.Request (derived or on a fresh context), HttpMiddlewareHandlerToFilter around a wrapping middleware, set ResponseWriter, write an error status through the Response and pass control on all the same}; any filter short-circuits on demand of the request; service / container filters registered before or after the routes / services; handlers that panic (recovery on: nothing in the chain may run a second time). 40-request sequences (routed, 404 and 405 routing failures with POST/HEAD/PUT/DELETE/PATCH, HandleWithFilter) run sequentially on one container and then from 16 (every 5th configuration: 70) goroutines (race detector on). Every fifth configuration also runs a fixed chain with a filter in the style of http.TimeoutHandler (hands the chain below, with a response of its own, to another goroutine, answers 504 and returns early): every element still runs once, in order. Offline checker per request: exact enter/pass/exit sequence = prefix of [container.., service.., route.., handler] with reversed exits, each once, hand-over identity of (Request, Response, http.Request, writer, attributes). Non-trivial = a request whose chain has >= 2 elements; distinct by (filter counts per level, short-circuit position, request kind, behaviours on the path).")
 	ctx.Assume("a filter that replaces the Request copies the attributes it knows about (the API offers no enumeration)")
 	configs := ctx.N(250, 20000)
 	for ci := 0; ci < configs; ci++ {
@@ -763,6 +768,10 @@ func c06(ctx *core.Ctx) {
 				wantStatus = 405
 			} else if rq.Kind == "routed-panic" {
 				wantStatus = 500
+			}
+			if len(rec.Hdr()["X-Maintenance"]) > 0 {
+				// a filter on the path announced 503 before anybody else had set a status (its header is part of the head that went out)
+				wantStatus = http.StatusServiceUnavailable
 			}
 			if rec.Code() != wantStatus {
 				ctx.Violation(ci, "c06:status:"+rq.Kind, fmt.Sprintf("status %d, expected %d", rec.Code(), wantStatus), doc)
